@@ -386,3 +386,36 @@ def run(ck, prog, tier, load):
                 scan_k = max(ks)
     ck.ob("C15-f.head-check-covers-scan", "read_stream", head_min is not None and scan_k is not None and head_min <= scan_k, rs, None,
           "the delimiter-candidate check at the start of the buffer runs for every buffer length (>= %s) at which the scan loop (needs cur + %s <= len) could otherwise step over a look-alike at position 0" % (head_min, scan_k))
+    grammar_rules(ck, prog)
+
+
+def grammar_rules(ck, prog):
+    """(g) exactness of the delimiter line and of the switch to the next field"""
+    rb = prog.one(r"^actix_multipart::multipart::Inner::read_boundary$")
+    LITS = {"\r\n", "--", "--\r\n"}
+    def eq_lit(c, lab):
+        bt = bool_test(c, lab)
+        if not bt or bt[1] is not True:
+            return False
+        e = bt[0]
+        if not (e[0] == "call" and rx(r"PartialEq.*::eq$").search(e[1] or "")):
+            return False
+        lits = [k for k in e_consts(e) if k[3] in LITS] + [k for k in e_consts(e) if k[1] and rx(r"(LINE_BREAK|BOUNDARY_MARKER)$").search(k[1])]
+        return bool(lits)
+    decided = [(bb, e) for bb, e in rb.ret_exprs() if is_agg(e, r"Result::Ok$") and e[3] and is_agg(e[3][0], r"Option::Some$") and e[3][0][3] and e[3][0][3][0][0] == "const"]
+    ck.anchor("C15-g", len(decided), 2, "Ok(Some(true/false)) returns of read_boundary")
+    for bb, e in decided:
+        ok, wit = guarded_by(rb, bb, eq_lit)
+        ck.ob("C15-g.delimiter-remainder-exact", "read_boundary|%s" % ("last" if e[3][0][3][0][2] == 1 else "more"), ok, rb, bb,
+              "what follows `--boundary` on the delimiter line is compared for EQUALITY with CRLF / `--` / `--CRLF` (a prefix test accepts `--boundary--junk` as the end of the body and silently drops the rest)", witness=rb.path_lines(wit))
+    # the current field is forgotten only when it has ended: a Pending of the field keeps it current
+    ip = prog.one(r"^actix_multipart::multipart::Inner::poll$")
+    drops = [bb for bb, i, s in ip.assigns() if any(isinstance(x, str) and x.endswith("Inner.item") for x in s["p"][1:]) and is_agg(ip.rv_expr(s["rv"], 3), r"Item::None$")]
+    ck.anchor("C15-g", len(drops), 1, "self.item = Item::None in Inner::poll")
+    ended = lambda c, lab: c[0] == "discr" and bool(e_calls(c, r"InnerField::poll$")) and lab == "None"
+    for bb in drops:
+        ok, wit = guarded_by(ip, bb, ended)
+        if not ok and any(ended(c, lab) for c, lab, a in ip.guards(bb)):
+            ok, wit = True, None  # established through a boolean temporary (`let stop = match .. { Ready(None) => true, .. }; if stop`)
+        ck.ob("C15-g.field-released-only-when-ended", "Inner::poll", ok, ip, bb,
+              "the field being skipped is forgotten only on the edge where polling it returned Ready(None): on Pending it stays current, otherwise the rest of its content is parsed as a delimiter line", witness=ip.path_lines(wit))
